@@ -264,6 +264,61 @@ func runMixedRetention(c *fw.Ctx) {
 		}
 	}
 	c.Sample(map[string]interface{}{"kind": "mixed retention", "records": len(vals)})
+	runResetReuse(c, vals)
+}
+
+// runResetReuse: ONE ReadBuf used for a series of separately framed messages (decode, keep the value, Reset(next
+// message), decode again …): nothing the caller keeps was ever released, so every kept value must still hold what
+// was decoded — after the later decodes and after a collection at any point.
+func runResetReuse(c *fw.Ctx, vals []MixRec) {
+	s, err := avro.SchemaForType(MixRec{})
+	if err != nil {
+		c.HarnessError(err.Error())
+		return
+	}
+	codec, err := s.Codec(MixRec{})
+	if err != nil {
+		c.HarnessError(err.Error())
+		return
+	}
+	var msgs [][]byte
+	for i := range vals {
+		w := avro.NewWriteBuf(nil)
+		codec.Write(w, unsafe.Pointer(&vals[i]))
+		msgs = append(msgs, append([]byte(nil), w.Bytes()...))
+	}
+	for gcAt := -1; gcAt < len(vals); gcAt++ {
+		c.Eval(1)
+		desc := fmt.Sprintf("one ReadBuf Reset for each of %d messages, every decoded value kept, collection before message %d", len(vals), gcAt)
+		locus := "readbuf-reset-reuse"
+		c.Begin(locus, desc)
+		c.Nontrivial(desc)
+		kept := make([]MixRec, len(vals))
+		pan, site := run(func() {
+			rb := avro.NewReadBuf(nil)
+			for i := range msgs {
+				if i == gcAt {
+					collect()
+				}
+				rb.Reset(msgs[i])
+				if err := codec.Read(rb, unsafe.Pointer(&kept[i])); err != nil {
+					panic(err)
+				}
+			}
+			runtime.KeepAlive(rb)
+		})
+		if pan != nil {
+			c.Violation("panic:"+fw.PanicClass(pan)+"@"+site+"|"+locus, fmt.Sprintf("panic %v — %s", pan, desc), desc)
+			continue
+		}
+		collect()
+		for j := range vals {
+			if d := gv.Equal(reflect.ValueOf(vals[j]), reflect.ValueOf(kept[j])); d != "" {
+				c.Violation("decoded-value-lost-after-gc|readbuf-reset-reuse", fmt.Sprintf("value %d, kept by the caller and never released, no longer holds what was decoded: %s — %s", j, d, desc), desc)
+				break
+			}
+		}
+	}
 }
 
 // ---- garbage: allocate objects of many size classes so that freed slots are reused and overwritten
@@ -802,7 +857,7 @@ func init() {
 			if tier == "thorough" {
 				b = 2
 			}
-			return fmt.Sprintf("workers run with GOGC=off GODEBUG=clobberfree=1,invalidptr=1, so the only collections are the ones the explorer injects and a freed object is overwritten at once; the library is rebuilt with a generated overlay that calls a hook before every statement of every function, and an instrumented leaf type GCProbe (registered custom codec) adds points inside every Read (before/middle/after), New, Omit and Write, plus callback entry and before/after each Encode: every one of these is a choice point (statement points on the decode/encode path: codecs, banks, buffers, the record loop of ReadFile, Encoder; quick tier: the first dynamic occurrence of each static point in the main variant and in encoding, codec-boundary points only in the other variants; thorough: the first two occurrences in all variants); the type universe puts probes inside and after every composite: all type expressions of depth<=2 (3 for maps and pointers in thorough) over leaves {GCProbe,string,[]byte,int64,*int64,*GCProbe,time.Time,null.String} and wrappers {*τ,[]τ,map[string]τ,struct{X τ;P GCProbe}}, each as struct{F τ; Tail GCProbe; G τ omitempty}; the decode direction runs in four variants (banks kept by the application; records kept but banks dropped unclosed; banks recycled from the pool after earlier reads whose banks were closed — of the same file and, every other placement, of a primer file whose record type takes only pointer-free allocations of 8/16/24/32 bytes from its banks — one collection in between; banks kept and the file rewritten by the reference writer with every array and map one item per block, every second block size-prefixed, so that slices and maps grow while holding items); for every type and variant ALL placements of at most %d injected collection(s) (each = 2×runtime.GC + allocation of garbage in 16 size classes) during ReadFile and during encoding are enumerated, and one collection is always run after decoding and again after the first comparison; plus a mixed-retention scenario (records that take nothing from their bank between records that do; the former's banks closed at once or one callback later, a collection at any one callback); oracle: every retained (shallow-copied) record equals the value written after the last collection, encoded data equals the collection-free run as a datum, the worker does not die; distinct_nontrivial = (type, placement) executions", b)
+			return fmt.Sprintf("workers run with GOGC=off GODEBUG=clobberfree=1,invalidptr=1, so the only collections are the ones the explorer injects and a freed object is overwritten at once; the library is rebuilt with a generated overlay that calls a hook before every statement of every function, and an instrumented leaf type GCProbe (registered custom codec) adds points inside every Read (before/middle/after), New, Omit and Write, plus callback entry and before/after each Encode: every one of these is a choice point (statement points on the decode/encode path: codecs, banks, buffers, the record loop of ReadFile, Encoder; quick tier: the first dynamic occurrence of each static point in the main variant and in encoding, codec-boundary points only in the other variants; thorough: the first two occurrences in all variants); the type universe puts probes inside and after every composite: all type expressions of depth<=2 (3 for maps and pointers in thorough) over leaves {GCProbe,string,[]byte,int64,*int64,*GCProbe,time.Time,null.String} and wrappers {*τ,[]τ,map[string]τ,struct{X τ;P GCProbe}}, each as struct{F τ; Tail GCProbe; G τ omitempty}; the decode direction runs in four variants (banks kept by the application; records kept but banks dropped unclosed; banks recycled from the pool after earlier reads whose banks were closed — of the same file and, every other placement, of a primer file whose record type takes only pointer-free allocations of 8/16/24/32 bytes from its banks — one collection in between; banks kept and the file rewritten by the reference writer with every array and map one item per block, every second block size-prefixed, so that slices and maps grow while holding items); for every type and variant ALL placements of at most %d injected collection(s) (each = 2×runtime.GC + allocation of garbage in 16 size classes) during ReadFile and during encoding are enumerated, and one collection is always run after decoding and again after the first comparison; plus a ReadBuf Reset and re-used for twelve messages with every value kept, and a mixed-retention scenario (records that take nothing from their bank between records that do; the former's banks closed at once or one callback later, a collection at any one callback); oracle: every retained (shallow-copied) record equals the value written after the last collection, encoded data equals the collection-free run as a datum, the worker does not die; distinct_nontrivial = (type, placement) executions", b)
 		},
 		Assumptions: []string{
 			"collections land at interception points: in the overlay build (the registered command) that is before EVERY statement of every library function (generated zzvs.StmtPoint hooks), plus inside the probe codec and at callback entry; a collection between two machine instructions of one statement (e.g. inside a single expression that converts a uintptr back to a pointer) is not placed",
